@@ -316,7 +316,7 @@ func runCase(run *vf.Run, raw json.RawMessage, dir string) *vf.Result {
 		return wd
 	}
 	defer func() {
-		if len(res.Violations) > 0 {
+		if len(res.Violations) > 0 || os.Getenv("VERIF_C12_KEEP") != "" {
 			if wd := witness(); wd != "" {
 				res.Logf("witness files (event log, race reports, goroutine dumps): %s", wd)
 			}
@@ -570,7 +570,23 @@ func runCase(run *vf.Run, raw json.RawMessage, dir string) *vf.Result {
 				resets = append(resets, float64(e.T1)/1e9)
 			}
 		}
-		postRun(res, mf, dir, cp, resets, rc(mf.Name))
+		// a non-PASSIVE checkpoint that failed after wal_checkpoint ran (context
+		// expiry, SQLITE_BUSY) is its own witness class as well
+		interrupted := ""
+		for _, e := range evs {
+			if e.DB != mf.Name || e.Err == "" {
+				continue
+			}
+			for _, k := range []string{"reacquire read lock", "bump litestream seq", "cannot snapshot after checkpoint", "cannot copy wal after checkpoint"} {
+				if strings.Contains(e.Err, k) {
+					interrupted = fmt.Sprintf("%s at t=%.1fs: %s", e.Op, float64(e.T1)/1e9, trunc(e.Err, 90))
+				}
+			}
+			if interrupted != "" {
+				break
+			}
+		}
+		postRun(res, mf, dir, cp, resets, interrupted, rc(mf.Name))
 		distinctK += res.Counters["distinct_k_"+mf.Name] - before
 		if res.HarnessErr != "" {
 			return res
